@@ -107,7 +107,7 @@ func (e *env) stateBatches(st *state) ([]chainx.Batch, error) {
 	if b, ok := e.batches[st.Name]; ok {
 		return b, nil
 	}
-	n, _, err := e.sc.RefNode(st.Hist)
+	n, _, err := e.scOf(st).RefNode(st.Hist)
 	if err != nil {
 		return nil, err
 	}
@@ -143,7 +143,7 @@ func (rn *runner) viaBlock(b []byte) (v verdict) {
 	if err != nil {
 		return r(err)
 	}
-	o := rn.e.sc.Fam.Opts()
+	o := rn.e.scOf(rn.st).Fam.Opts()
 	o.Store = chainx.NewRecStore(chainx.ApplyBatches(batches, len(batches)))
 	n, err := chainx.New(o)
 	if err != nil {
